@@ -154,6 +154,10 @@ def _do_op(rec, msg, op, fields, labelmsm, name, value):
                 try:
                     x["dd"] = desc_digest(datadesc(k))
                     i = att2idx(k)
+                    # the helpers are pure: asked again (in another order) they must answer the same
+                    n1 = att2name(k)
+                    if att2idx(k) != i or att2name(k) != n1 or desc_digest(datadesc(k)) != x["dd"] or att2idx(k) != i:
+                        raise AssertionError("NotIdempotent")
                     if isinstance(i, tuple):
                         x["tuple"] = True
                         x["idx"] = [int(j) for j in i]
